@@ -426,3 +426,163 @@ Proof.
   apply Permutation_refl.
 Qed.
 End DrainedProj.
+
+(* ======================================================================== *)
+(* Outcome class is the same for every sorted permutation (FILL, DRAINED)    *)
+(* ======================================================================== *)
+Section DrainedClass.
+Variables (infos s1 s2 : list info) (need total : Z).
+Hypothesis Hvalid : valid_infos infos.
+Hypothesis Hp1 : Permutation infos s1.
+Hypothesis Hp2 : Permutation infos s2.
+Hypothesis Hneed : 0 < need.
+
+Lemma drained_class_of sorted : Permutation infos sorted ->
+  (need <= caps infos -> exists p, drained_from sorted need total = Ok p) /\
+  (caps infos < need -> drained_from sorted need total = Err EInsufficientResource).
+Proof.
+  intro Hp. unfold drained_from.
+  assert (Hcn : Forall (fun x => 0 <= cap x) sorted).
+  { destruct Hvalid as [_ Hv]. rewrite Forall_forall in *. intros x Hx.
+    apply Hv. eapply Permutation_in; [symmetry; exact Hp|exact Hx]. }
+  destruct (drained_loop_spec sorted need [] ltac:(lia) Hcn) as [I1 I2].
+  rewrite (caps_perm _ _ Hp). split.
+  - intro H. destruct (I2 H) as (l1 & x & l2 & _ & _ & Hr). eexists. exact Hr.
+  - exact I1.
+Qed.
+
+Theorem drained_class_invariant :
+  res_class_eqb (drained_from s1 need total) (drained_from s2 need total) = true.
+Proof.
+  destruct (drained_class_of s1 Hp1) as [A1 B1]. destruct (drained_class_of s2 Hp2) as [A2 B2].
+  destruct (Z.lt_ge_cases (caps infos) need) as [Hl|Hg].
+  - rewrite (B1 Hl), (B2 Hl). reflexivity.
+  - destruct (A1 Hg) as (p1 & E1). destruct (A2 Hg) as (p2 & E2). rewrite E1, E2. reflexivity.
+Qed.
+End DrainedClass.
+
+(* FILL: ErrAlreadyFilled iff every selected position plans 0 *)
+Definition all_selected_zero (vs : list (list Z)) : Prop :=
+  forall v, In v vs -> nth 2 v 0 = 1 -> nth 3 v 0 = 0.
+
+Lemma fill_fold_zero need sel : forall dep todo,
+  NoDup (names sel) -> (forall x, In x sel -> mhas dep (name x) = false) -> 0 <= todo ->
+  (snd (fill_fold need sel (dep, todo)) = 0 <-> todo = 0 /\ forall x, In x sel -> fill_val need x = 0) /\
+  0 <= snd (fill_fold need sel (dep, todo)).
+Proof.
+  induction sel as [|x t IH]; intros dep todo Hnd Hf Ht.
+  - simpl. split; [|exact Ht]. split; [intro H; split; [exact H|intros x []]|tauto].
+  - simpl in Hnd. inversion Hnd as [|? ? Hx Hnt]; subst.
+    change (fill_fold need (x :: t) (dep, todo)) with
+      (fill_fold need t (madd dep (name x) (fill_val need x), todo + mget (madd dep (name x) (fill_val need x)) (name x))).
+    assert (Eg : mget (madd dep (name x) (fill_val need x)) (name x) = fill_val need x).
+    { rewrite mget_madd_same, (mhas_false_mget _ _ (Hf x (or_introl eq_refl))). lia. }
+    rewrite Eg. assert (Hv : 0 <= fill_val need x) by (unfold fill_val; lia).
+    destruct (IH (madd dep (name x) (fill_val need x)) (todo + fill_val need x)) as [I1 I2]; auto; try lia.
+    + intros y Hy. rewrite mhas_madd, (Hf y (or_intror Hy)), orb_false_r.
+      apply seqb_neq. intro E. apply Hx. rewrite E. apply in_names. exact Hy.
+    + split; [|exact I2]. rewrite I1. split.
+      * intros [H1 H2]. split; [lia|]. intros y [<-|Hy]; [lia|apply H2; exact Hy].
+      * intros [H1 H2]. split; [rewrite H1, (H2 x (or_introl eq_refl)); lia|].
+        intros y Hy. apply H2. right; exact Hy.
+Qed.
+
+Section FillClass.
+Variables (infos s1 s2 : list info) (need limit : Z).
+Hypothesis Hvalid : valid_infos infos.
+Hypothesis Hp1 : Permutation infos s1.
+Hypothesis Hp2 : Permutation infos s2.
+Hypothesis Ho1 : Sorted (ngt fill_less) s1.
+Hypothesis Ho2 : Sorted (ngt fill_less) s2.
+Hypothesis Hneed : 0 < need.
+Hypothesis Hlimit : 0 <= limit.
+
+Let L := each_limit infos limit.
+
+(* which of the three outcomes, in terms of quantities that do not depend on the order *)
+Lemma fill_class_of sorted :
+  Permutation infos sorted -> Sorted (ngt fill_less) sorted ->
+  (countb (fillable need) infos < L \/ L < 1 -> fill_from sorted need L = Err EInsufficientResource) /\
+  (1 <= L <= countb (fillable need) infos ->
+     exists p, (fill_from sorted need L = AlreadyFilled p \/ fill_from sorted need L = Ok p) /\
+       (fill_from sorted need L = AlreadyFilled p <-> all_selected_zero (fvals need (map fkey sorted) L))).
+Proof.
+  intros Hp Ho. rewrite (countb_perm _ _ _ Hp). split.
+  - intros [Hc|Hl].
+    + pose proof (fill_limit_cases infos sorted limit) as HL.
+      repeat (match type of HL with ?A -> _ => let a := fresh in assert (a : A) by assumption; specialize (HL a); clear a end).
+      fold L in HL. destruct HL as [[E0 En]|H1].
+      * unfold fill_from. rewrite En in Hp. apply Permutation_nil in Hp. rewrite Hp. reflexivity.
+      * unfold fill_from. apply (proj1 (fill_loop_spec need sorted L [] 0 H1)). exact Hc.
+    + pose proof (fill_limit_cases infos sorted limit) as HL.
+      repeat (match type of HL with ?A -> _ => let a := fresh in assert (a : A) by assumption; specialize (HL a); clear a end).
+      fold L in HL. destruct HL as [[E0 En]|H1]; [|lia].
+      unfold fill_from. rewrite En in Hp. apply Permutation_nil in Hp. rewrite Hp. reflexivity.
+  - intros [H1 Hc].
+    destruct (proj2 (fill_loop_spec need sorted L [] 0 H1) Hc) as (l1 & l2 & E & Hcnt & Hres).
+    cbv zeta in Hres. set (sel := filter (fillable need) l1) in *.
+    set (r := fill_fold need sel (([] : plan), 0)).
+    assert (Hres' : fill_loop sorted need L [] 0 = if snd r =? 0 then AlreadyFilled (fst r) else Ok (fst r)) by exact Hres.
+    clear Hres. rename Hres' into Hres.
+    exists (fst r). unfold fill_from.
+    assert (Hnd : NoDup (names sorted)) by (destruct Hvalid as [Hn _]; eapply nodup_names_perm; eauto).
+    assert (Hnds : NoDup (names sel)).
+    { rewrite E, names_app in Hnd. apply nodup_app_l in Hnd. unfold sel. clear -Hnd.
+      induction l1 as [|h t IH]; simpl in *; [constructor|].
+      inversion Hnd as [|? ? Hh Ht]; subst. destruct (fillable need h); simpl; auto. constructor; auto.
+      intro Hin. apply Hh. unfold names in *. apply in_map_iff in Hin. destruct Hin as (y & Ey & Hy).
+      apply filter_In in Hy. apply in_map_iff. exists y. tauto. }
+    destruct (fill_fold_zero need sel [] 0 Hnds ltac:(intros; reflexivity) ltac:(lia)) as [Hz0 _].
+    assert (Hz : snd r = 0 <-> 0 = 0 /\ (forall x : info, In x sel -> fill_val need x = 0)) by exact Hz0.
+    clear Hz0.
+    assert (Hplan : is_plan (fill_loop sorted need L [] 0) (fst r)).
+    { rewrite Hres. destruct (snd r =? 0); [right|left]; reflexivity. }
+    pose proof (fill_proj_pos infos need limit Hvalid Hlimit sorted _ (fst r) Hp Ho eq_refl Hplan) as Hpos.
+    fold L in Hpos. rewrite <- Hpos.
+    split; [rewrite Hres; destruct (snd r =? 0); auto|].
+    (* plan facts *)
+    destruct (fill_fold_spec need sel [] 0 Hnds) as (_ & _ & F3' & F4' & _); simpl; auto; [constructor|].
+    assert (F3 : forall k, mhas (fst r) k = mhas [] k || existsb (String.eqb k) (names sel)) by exact F3'.
+    assert (F4 : forall x, In x sel -> mget (fst r) (name x) = fill_val need x) by exact F4'.
+    clear F3' F4'.
+    assert (Hsel_of : forall y, In y sorted -> mhas (fst r) (name y) = true -> In y sel).
+    { intros y Hy Hh. rewrite F3 in Hh. simpl in Hh. apply existsb_eqb_in in Hh.
+      unfold names in Hh. apply in_map_iff in Hh. destruct Hh as (z & Ez & Hz').
+      assert (y = z); [|subst; exact Hz'].
+      apply (nodup_names_inj sorted); auto. rewrite E. apply in_or_app. left.
+      apply filter_In in Hz'. tauto. }
+    rewrite Hres. split.
+    + intro Haf. assert (Es : snd r = 0) by (destruct (Z.eqb_spec (snd r) 0); [assumption|discriminate]).
+      apply Hz in Es. destruct Es as [_ Hall].
+      intros v Hv H2. apply in_map_iff in Hv. destruct Hv as (y & <- & Hy).
+      unfold proj in *. destruct (mhas (fst r) (name y)) eqn:Eh; simpl in *; [|discriminate].
+      rewrite (F4 y (Hsel_of y Hy Eh)). apply Hall. apply Hsel_of; assumption.
+    + intro HQ. assert (Es : snd r = 0).
+      { apply Hz. split; [reflexivity|]. intros x Hx.
+        assert (Hxs : In x sorted) by (rewrite E; apply in_or_app; left; apply filter_In in Hx; tauto).
+        specialize (HQ (proj Fill (fst r) x) (in_map _ _ _ Hxs)).
+        unfold proj in HQ. rewrite F3 in HQ. simpl in HQ.
+        assert (existsb (String.eqb (name x)) (names sel) = true) as Ex by (apply existsb_eqb_in; apply in_names; exact Hx).
+        rewrite Ex in HQ. simpl in HQ. rewrite (F4 x Hx) in HQ. apply HQ. reflexivity. }
+      rewrite Es. reflexivity.
+Qed.
+
+Theorem fill_class_invariant :
+  res_class_eqb (fill_from s1 need L) (fill_from s2 need L) = true.
+Proof.
+  destruct (fill_class_of s1 Hp1 Ho1) as [A1 B1]. destruct (fill_class_of s2 Hp2 Ho2) as [A2 B2].
+  destruct (Z_lt_ge_dec (countb (fillable need) infos) L) as [Hc|Hc].
+  - rewrite (A1 (or_introl Hc)), (A2 (or_introl Hc)). reflexivity.
+  - destruct (Z_lt_ge_dec L 1) as [Hl|Hl].
+    + rewrite (A1 (or_intror Hl)), (A2 (or_intror Hl)). reflexivity.
+    + destruct (B1 ltac:(lia)) as (p1 & [E1|E1] & Q1); destruct (B2 ltac:(lia)) as (p2 & [E2|E2] & Q2);
+        rewrite E1, E2; try reflexivity; exfalso.
+      * (* s1 already filled, s2 not *)
+        pose proof (fill_keys_eq infos s1 s2) as Ek.
+        repeat (match type of Ek with ?A -> _ => let a := fresh in assert (a : A) by assumption; specialize (Ek a); clear a end).
+        apply Q1 in E1. rewrite Ek in E1. apply Q2 in E1. rewrite E1 in E2. discriminate.
+      * pose proof (fill_keys_eq infos s1 s2) as Ek.
+        repeat (match type of Ek with ?A -> _ => let a := fresh in assert (a : A) by assumption; specialize (Ek a); clear a end).
+        apply Q2 in E2. rewrite <- Ek in E2. apply Q1 in E2. rewrite E2 in E1. discriminate.
+Qed.
+End FillClass.
